@@ -3,7 +3,7 @@
    Proofs: C16/Lemmas.v (string primitives), C16/Roundtrip.v (reader on the writer's output). *)
 From Coq Require Import List NArith ZArith Permutation.
 Import ListNotations.
-Require Import Base.Wire Base.PyStr C16.Model C16.Lemmas C16.Roundtrip C16.Files C16.Config C16.Nicks C16.Bytes.
+Require Import Base.Wire Base.PyStr C16.Model C16.Lemmas C16.Roundtrip C16.Files C16.Config C16.Nicks C16.Bytes C16.NextId.
 
 (* Full statement (refuted on the pinned tree, findings F1/F2/...):
      forall db, read_users (write_users db) = (UState None (sort_users db) (max_id (sort_users db) 0), None)
@@ -273,3 +273,22 @@ Theorem C16_accepted_nick_calls_stay_in_domain :
   (forall u, nicks_inv u -> forallb nick_ok (u_nicks u) = true /\ nicks_stable (u_nicks u) = true).
 Proof. exact accepted_calls_domain. Qed.
 Print Assumptions C16_accepted_nick_calls_stay_in_domain.
+
+(* ---------------------------------------------------------------------------------------------
+   nextId (finding C16.k).  UsersDictionary.flush writes the accounts only (table FLUSH_WRITES_NEXTID is
+   false on this tree; the model write_users_state / user_exec / user_finish is table-driven and would follow a
+   `nextid N` trailer).  Full statement: forall next db, reload gives nextId = next.  It holds exactly when next
+   is the largest stored id, i.e. when no account with an id above every stored one was deleted before the flush;
+   otherwise open() recomputes nextId from the accounts and the id of the deleted account is handed out again. *)
+Theorem C16_users_state_roundtrip_on_domain :
+  forall db, users_dom db = true ->
+  read_users (write_users_state (max_id (sort_users db) 0%Z) db)
+  = (UState None (sort_users db) (max_id (sort_users db) 0%Z), None).
+Proof. exact users_state_roundtrip. Qed.
+Print Assumptions C16_users_state_roundtrip_on_domain.
+
+Theorem C16_nextid_forgotten_without_trailer :
+  exists db next, users_dom db = true /\ (max_id (sort_users db) 0%Z < next)%Z
+  /\ us_next (fst (read_users (write_users_state next db))) <> next.
+Proof. exact nextid_forgotten. Qed.
+Print Assumptions C16_nextid_forgotten_without_trailer.
